@@ -149,13 +149,19 @@ def check(ctx, replay=None):
                                                                  "lib_rs": src[:4000]}, True)
     big += fixed
     ndocs, dgoals, fails, dkinds = c15_docs.run(ctx)
+    import c15_ctor
+    cruns, cgoals, cfails, cstats = c15_ctor.run(ctx)
+    big += cruns
+    fails = list(fails) + [len(dgoals) + f for f in cfails]
+    dgoals = list(dgoals) + cgoals
     return batch_evidence(
         ctx, PROP, phase, dgoals, fails, len(res) + big, len({(c[0], json.dumps(c[1])) for c in cs}),
         "one witness bridge per (position, type) of the AST type grammar to depth 2 (see C05) for each of the 7 backends through the real CLI, plus "
         "generated grammar-wide modules under the config variants (js.abi legacy/spec, kotlin finalizers, lib_name), plus fixed bridges with a "
         "rust_link of each of the 22 kinds x display style x module depth (also shorter-than-needed paths) under three docs-URL settings and every "
         "special-method attribute (constructors, accessors, stringifier, comparison, iterator/iterable, indexer, 8 arithmetic operators) on opaque, "
-        "struct, out-struct and enum types, all gated with `auto`; observed: exit class "
+        "struct, out-struct and enum types, all gated with `auto`, and generated constructor-dependency graphs (constructors needing their own or each other's type) through "
+        "demo_gen, whose error / no-error outcome is compared with Dispatch/Ctor.v; observed: exit class "
         "ok | lowering/back-end diagnostics | panic. Every panic after lowering is a violation keyed by (backend, panic site, shape class). "
         "evaluations = tool runs; distinct_nontrivial = distinct witnesses",
         "Modelled, not verified: the documentation renderer (Docs/Model.v = Docs::get_doc_lines, to_markdown, gen_for_rust_link; HashMap lookup as "
@@ -166,4 +172,4 @@ def check(ctx, replay=None):
         [{"pos": cs[0][0], "rust": gate_run.rust_ty(cs[0][1])}, {"pos": cs[-1][0], "rust": gate_run.rust_ty(cs[-1][1])}],
         ["sources that panic while being parsed into the AST (before lowering; decided for core/src/ast sites by the backtrace containing ast::File::from) are outside the property",
          "uniformity inside a shape class (a backend treating two members of one class differently) is assumed, not proved"],
-        {"witnesses": len(cs), "tool_runs": len(res) + big, "fixed_bridge_runs": fixed, "docs_renderer_cases": ndocs, "docs_link_kinds": dkinds, "runs_past_lowering": ok_runs, "recorded_panic_classes": len(panics)})
+        {"witnesses": len(cs), "tool_runs": len(res) + big, "fixed_bridge_runs": fixed, "docs_renderer_cases": ndocs, "docs_link_kinds": dkinds, "runs_past_lowering": ok_runs, "recorded_panic_classes": len(panics), "demo_constructor_graphs": cstats})
